@@ -1,6 +1,7 @@
 package main
 
 import (
+	"fmt"
 	"sort"
 
 	"github.com/taurusgroup/multi-party-sig/internal/zzverif/faults"
@@ -73,7 +74,61 @@ func catalogue(w *world, check string) []kase {
 			}
 		}
 	}
+	if check == "C04" {
+		out = append(out, stateCases(w, deviators)...)
+	}
 	return out
+}
+
+// stateCases: state-level deviations of the deviator (a value of its round state shifted by one at
+// the moment it enters a round, kept or restored when it leaves the round), found by probing an honest run.
+func stateCases(w *world, deviators []party.ID) []kase {
+	var out []kase
+	for _, d := range deviators {
+		type rf struct{ rt, field string }
+		seen := map[rf]bool{}
+		var order []rf
+		probe := &faults.Fault{Deviator: d}
+		probe.StateHook = func(h protocol.Handler) bool {
+			rt := faults.RoundType(h)
+			for _, f := range faults.StateFields(h) {
+				// fields declared by this round always; inherited ones up to two rounds back (thorough),
+				// in the quick tier only the shares whose inconsistency the abort rounds must attribute
+				if f.Depth > 2 || (f.Depth > 0 && !vkitThorough() && !blameFields[f.Name]) {
+					continue
+				}
+				k := rf{rt, f.Name}
+				if !seen[k] {
+					seen[k] = true
+					order = append(order, k)
+				}
+			}
+			return false
+		}
+		faults.Run(w.fresh(), vkitSeed(), "fc", probe)
+		other := w.spec.IDs[0]
+		if other == d {
+			other = w.spec.IDs[1]
+		}
+		for _, k := range order {
+			for _, key := range []party.ID{d, other} {
+				for _, restore := range []bool{false, true} {
+					f := faults.StateFault(d, k.rt, k.field, key, restore)
+					out = append(out, kase{Scenario: w.sc, Deviator: d, Slot: faults.Slot{From: d}, Path: fmt.Sprintf("%s.%s[%s]", k.rt, k.field, keyClass(key, d)), Op: f.Mut.Op, Menu: "state", fault: f})
+				}
+			}
+		}
+	}
+	return out
+}
+
+var blameFields = map[string]bool{"GammaShare": true, "KShare": true, "SecretECDSA": true, "ChiShare": true, "DeltaShares": true}
+
+func keyClass(key, d party.ID) string {
+	if key == d {
+		return "self"
+	}
+	return "peer"
 }
 
 func messageOps(w *world, s faults.Slot, m *protocol.Message, check string) []*faults.Fault {
